@@ -268,6 +268,9 @@ def _mk_tok(cid, opname, k, trivia_false):
             a2 = [(t[0], t[1]) for t in after]
             lost = msub(msub(b2, gone), a2)
             extra = msub(msub(a2, came), b2)
+            if c.field == 'orelse':       # the else / elif / if header keywords are the block structure itself, rewritten with the slice (elif_ option)
+                lost = [t for t in lost if t not in (('NAME', 'else'), ('NAME', 'elif'), ('NAME', 'if'))]
+                extra = [t for t in extra if t not in (('NAME', 'else'), ('NAME', 'elif'), ('NAME', 'if'))]
             lost_code = [t for t in lost if t[0] != 'COMMENT']
             lost_comments = [t for t in lost if t[0] == 'COMMENT']
             check(not lost_code, sig + '.tokens_lost_outside_edited_elements', (src1, lost_code))
@@ -339,7 +342,7 @@ for _mode in ('none', 'line', 'block', 'all'):
                                   tier='quick' if _q else 'thorough', budget=600, out='bound on the element line; integer form of `comments`'))
 CELLS.append(Cell('K2.get_trivia_params', k2_trivia_params, 'K', FNT[2:3],
                   '10 leading x 12 trailing option forms, the numbers in "+N"/"-N" symbolic 0..99, neg flag, scalar / 1-tuple / 2-tuple / empty tuple', budget=900))
-_QC = ('list4c', 'ifbody3', 'modbody', 'decos', 'handlers', 'cases', 'fromimp3', 'funcbody')
+_QC = ('list4c', 'ifbody3', 'modbody', 'decos', 'handlers', 'cases', 'fromimp3', 'funcbody', 'bscomment', 'orelse2')
 for _c in pc.CARRIERS:
     if '#' not in _c.src:
         continue
